@@ -36,6 +36,21 @@ def _method_ref(ctx, node):
     return None
 
 
+def _bind_one(ctx, f, flow, caller, c, g, bound):
+    keys = []
+    for k in c.keywords:
+        if k.arg == "kwargs":
+            v = flow.resolve(k.value, at=c, depth=1)
+            if not isinstance(v, ast.Dict):
+                raise AnalysisError("%s: kwargs of map() is not a dict literal" % caller)
+            keys = [const_value(x) for x in v.keys]
+    problems = bind_counts(g, bound, 1, keys)
+    ctx.ob("FileSet.%s -> map(%s)" % (caller, "FileSet." + g.qualname.split(".")[-1]), not problems,
+           "worker %s%s called as f(file, %s): %s" % (g.qualname, "" if g.is_static else " (not a staticmethod, referenced through the class)",
+                                                     ", ".join("%s=..." % k for k in keys), problems or "binds"),
+           "f(<file>, **kwargs) binds to the worker's signature (TypeError otherwise, for every file)", node=c, func=f)
+
+
 def rule_bind(ctx):
     ctx.rule("C11.bind", "T7", "every function handed to FileSet.map(func, kwargs=K) accepts one positional file plus exactly the keys of K; "
              "direct internal calls bind; no swapped same-named arguments")
@@ -46,9 +61,16 @@ def rule_bind(ctx):
         for c in calls_in(f.node, "map"):
             if norm(c.func) != "self.map" or not c.args:
                 continue
-            ref = _method_ref(ctx, c.args[0])
-            if ref is None:
-                continue
+            cands = [c.args[0]]
+            if isinstance(c.args[0], ast.Name):
+                cands = [flow._def_value(d_, c.args[0].id) for d_ in flow.defs(c.args[0].id, c) if d_ != "param"]
+            refs = [_method_ref(ctx, x) for x in cands if x is not None]
+            for ref in refs:
+              if ref is not None:
+                g, bound = ref
+                _bind_one(ctx, f, flow, caller, c, g, bound)
+                n += 1
+            continue
             g, bound = ref
             keys = []
             for k in c.keywords:
@@ -83,16 +105,23 @@ def rule_bind(ctx):
 def rule_delete(ctx):
     ctx.rule("C11.delete", "T2", "the dry-run path reaches no removal effect; the real path removes exactly its file argument")
     f = ctx.func(FILESET, "FileSet.delete")
-    first = [s for s in f.body if isinstance(s, ast.If)]
-    ok = False
-    fact = None
-    if first:
-        st = first[0]
-        t = [norm(c.args[0]) for s in st.body for c in calls_in(s, "map")]
-        e = [norm(c.args[0]) for s in st.orelse for c in calls_in(s, "map")]
-        fact = "if %s: map(%s) else: map(%s)" % (norm(st.test), t, e)
-        ok = norm(st.test) == f.params[1] and t == ["FileSet._dry_delete"] and e == ["FileSet._delete_single_file"]
-    ctx.ob("FileSet.delete.dispatch", ok, fact, "dry_run -> _dry_delete, otherwise _delete_single_file; selection keywords forwarded unchanged", node=first[0] if first else f.node, func=f)
+    flow = Flow(f)
+    dry = f.params[1]
+    maps = [c for c in calls_in(f.node, "map") if norm(c.func) == "self.map" and c.args]
+    if not maps:
+        raise AnalysisError("delete: no self.map(worker, ...) call")
+    chosen = {}
+    for v in (True, False):
+        live = [c for c in maps if flow.live_under(enclosing_stmt(c), {dry: v})]
+        if len(live) != 1:
+            raise AnalysisError("delete: %d map calls on the path dry_run=%s" % (len(live), v))
+        chosen[v] = norm(flow.resolve_under(live[0].args[0], {dry: v}, at=live[0]))
+        kw = [k for k in live[0].keywords if k.arg is None]
+        if len(kw) != 1 or norm(kw[0].value) != (f.node.args.kwarg.arg if f.node.args.kwarg else None):
+            chosen[v] += " [selection keywords not forwarded]"
+    fact = "dry_run: map(%s); otherwise: map(%s)" % (chosen[True], chosen[False])
+    ok = chosen[True] == "FileSet._dry_delete" and chosen[False] == "FileSet._delete_single_file"
+    ctx.ob("FileSet.delete.dispatch", ok, fact, "dry_run -> _dry_delete, otherwise _delete_single_file; selection keywords forwarded unchanged", node=maps[0], func=f)
     d = ctx.func(FILESET, "FileSet._dry_delete")
     eff = [norm(c) for c in calls_in(d.node) if (dotted(c.func) or "").split(".")[-1] in WRITE_EFFECTS or (dotted(c.func) or "") == "open"]
     ctx.ob("FileSet._dry_delete.effects", not eff, "file-system effects in the dry-run worker: %s" % (eff or "none"), "none", node=d.node, func=d)
@@ -116,10 +145,11 @@ def rule_move(ctx):
     ok = bool(nn) and norm(nn[0].value).replace(" ", "") == "%s.get_filename(%s.times,fill=%s.attr)" % (dest, fi, fi)
     new = norm(nn[0].targets[0]) if nn else None
     ctx.ob("FileSet._move_single_file.name", ok, "%s" % (norm(nn[0]) if nn else None), "new name = destination.get_filename(file.times, fill=file.attr)", node=nn[0] if nn else f.node, func=f)
-    top = [st for st in f.body if isinstance(st, ast.If) and norm(st.test) == conv]
+    from ..flow import arms
+    top = [st for st in f.body if isinstance(st, ast.If) and arms(st, conv, f.body) is not None]
     if not top:
         raise AnalysisError("_move_single_file: `if convert:` not found")
-    ct, pl = top[0].body, top[0].orelse
+    ct, pl = arms(top[0], conv, f.body)
     # convert arm
     calls_c = [(c.lineno, norm(c)) for s in ct for c in calls_in(s)]
     rd = [c for s in ct for c in calls_in(s, "read") if norm(c.func) == "%s.read" % fs]
@@ -131,17 +161,19 @@ def rule_move(ctx):
     okr = len(rm) == 1 and norm(rm[0].args[0]) == "%s.path" % fi
     if okr:
         g = parent(enclosing_stmt(rm[0]))
-        okr = isinstance(g, ast.If) and norm(g.test) == "not %s" % cp and rm[0].lineno > wr[0].lineno if wr else False
+        ab = arms(g, cp) if isinstance(g, ast.If) else None
+        okr = ab is not None and any(enclosing_stmt(rm[0]) is s_ for s_ in ab[1]) and (rm[0].lineno > wr[0].lineno if wr else False)
     ctx.ob("FileSet._move_single_file.convert.remove", okr, "removals in the convert arm: %s" % [norm(c) for c in rm],
            "`if not copy: os.remove(file.path)` after the write - never with copy, never before the new file exists", node=rm[0] if rm else top[0], func=f)
     # plain arm
     mk = [c for s in pl for c in calls_in(s, "makedirs")]
-    tr = [s for s in pl if isinstance(s, ast.If) and norm(s.test) == cp]
+    tr = [s for s in pl if isinstance(s, ast.If) and arms(s, cp, pl) is not None]
     okp = False
     fact = None
     if mk and tr:
-        t = [norm(c) for s in tr[0].body for c in calls_in(s)]
-        e = [norm(c) for s in tr[0].orelse for c in calls_in(s)]
+        t_arm, e_arm = arms(tr[0], cp, pl)
+        t = [norm(c) for s in t_arm for c in calls_in(s)]
+        e = [norm(c) for s in e_arm for c in calls_in(s)]
         fact = "makedirs: %s; if copy: %s else: %s" % (norm(mk[0]), t, e)
         fsys = norm(mk[0].func.value)
         okp = norm(mk[0].args[0]).replace(" ", "") == "posixpath.dirname(%s)" % new and mk[0].lineno < tr[0].lineno \
@@ -251,30 +283,53 @@ def rule_handlers(ctx):
     hm = ctx.mod("typhon/files/handlers/common.py")
     missing = [c + "." + m for c in ("NetCDF4", "CSV") for m in ("read", "write") if (c + "." + m) not in hm.funcs]
     ctx.ob("handlers.read_write", not missing, "missing methods: %s" % (missing or "none"), "NetCDF4 and CSV define read and write", node=hm.tree, func=None)
-    # suffix derivation
-    stmts = [st for st in walk_no_nested(f.node) if isinstance(st, ast.If) and norm(st.test) == "handler is None"]
-    ok = False
-    fact = None
-    if stmts:
-        body = [norm(s) for s in stmts[0].body]
-        fact = body[:4]
-        ok = body[:3] == ["basename, extension = os.path.splitext(self.path)",
-                          "if typhon.files.is_compression_format(extension.lstrip('.')):\n    _, extension = os.path.splitext(basename)",
-                          "extension = extension.lstrip('.')"] and "self.handler = self.default_handler.get(extension, None)" in body
-    ctx.ob("FileSet.__init__.suffix", ok, "%s" % fact, "suffix of the path; if it is a compression format, the suffix before it; dot stripped; looked up in the table", node=stmts[0] if stmts else f.node, func=f)
+    # suffix derivation: the key looked up in the table, with and without a compression suffix
+    flow = Flow(f)
+    look = [c for c in calls_in(f.node, "get") if norm(c.func) == "self.default_handler.get" and c.args]
+    look += [n.slice for n in walk_no_nested(f.node) if isinstance(n, ast.Subscript) and norm(n.value) == "self.default_handler"]
+    if len(look) != 1:
+        raise AnalysisError("FileSet.__init__: expected one look-up in self.default_handler, found %d" % len(look))
+    keyx = look[0].args[0] if isinstance(look[0], ast.Call) else look[0]
+    tests = [c for c in calls_in(f.node, "is_compression_format")]
+    if len(tests) != 1:
+        raise AnalysisError("FileSet.__init__: expected one is_compression_format(...) test")
+    targ = norm(flow.resolve(tests[0].args[0], at=tests[0]))
+    cond = norm(flow.resolve(tests[0], at=tests[0]))
+    stop = ("handler",)
+    plain = norm(flow.resolve_under(keyx, {cond: False, norm(tests[0]): False}, at=keyx, stop=stop, depth=8)).replace('"', "'")
+    packed = norm(flow.resolve_under(keyx, {cond: True, norm(tests[0]): True}, at=keyx, stop=stop, depth=8)).replace('"', "'")
+    sfx = "os.path.splitext(self.path)[1].lstrip('.')"
+    ok = plain == sfx and targ.replace('"', "'") == sfx and packed == "os.path.splitext(os.path.splitext(self.path)[0])[1].lstrip('.')"
+    ctx.ob("FileSet.__init__.suffix", ok, "key = %s; after a compression suffix (%s): key = %s" % (plain, targ, packed),
+           "suffix of the path; if it is a compression format, the suffix before it; dot stripped; looked up in the table", node=tests[0], func=f)
 
 
 def rule_items(ctx):
     ctx.rule("C11.items", "T6", "fs[s:e] = d -> get_filename((s, e), fill) then write; fs[s:e] -> collect(s, e)")
     f = ctx.func(FILESET, "FileSet.__setitem__")
     key, val = f.params[1], f.params[2]
-    body = [norm(s) for s in f.body]
-    ok = len(body) >= 4 and body[-2:] == ["filename = self.get_filename((start, end), fill=fill)", "self.write(%s, filename)" % val]
-    sl = [st for st in f.body if isinstance(st, ast.If) and "slice" in norm(st.test)]
-    if sl:
-        b = {norm(s.targets[0]): norm(s.value) for s in sl[0].body if isinstance(s, ast.Assign)}
-        ok = ok and b == {"start": "time_args.start", "end": "time_args.stop"}
-    ctx.ob("FileSet.__setitem__", ok, "%s" % body[-2:], "filename = self.get_filename((slice.start, slice.stop), fill=fill); self.write(value, filename)", node=f.node, func=f)
+    flow = Flow(f)
+    gf = ctx.func(FILESET, "FileSet.get_filename")
+    gc = calls_in(f.node, "get_filename")
+    wc = [c for c in calls_in(f.node, "write") if norm(c.func) == "self.write"]
+    if len(gc) != 1 or len(wc) != 1:
+        raise AnalysisError("__setitem__: expected one self.get_filename(...) and one self.write(...)")
+    from ..calls import bind_args
+    bound = bind_args(gc[0], gf)
+    times = bound.get(gf.params[1])
+    if times is None:
+        raise AnalysisError("__setitem__: get_filename is called without its times argument")
+    ta = [st for st in flow.stmts if isinstance(st, ast.Assign) and any(isinstance(t, ast.Name) and t.id == "time_args" for t in st.targets)]
+    stop = ("time_args", key)
+    cond = "isinstance(time_args, slice)"
+    as_slice = norm(flow.resolve_under(times, {cond: True}, at=gc[0], stop=stop))
+    as_point = norm(flow.resolve_under(times, {cond: False}, at=gc[0], stop=stop))
+    fill = bound.get("fill")
+    fname = norm(flow.resolve(wc[0].args[1], at=wc[0], depth=1)) if len(wc[0].args) > 1 else None
+    ok = as_slice == "(time_args.start, time_args.stop)" and as_point == "(time_args, time_args)" and fill is not None and norm(fill) == "fill" \
+        and len(wc[0].args) == 2 and norm(wc[0].args[0]) == val and fname == norm(gc[0])
+    ctx.ob("FileSet.__setitem__", ok, "slice key: times = %s; other key: times = %s; write(%s)" % (as_slice, as_point, ", ".join(norm(a) for a in wc[0].args)),
+           "filename = self.get_filename((slice.start, slice.stop), fill=fill); self.write(value, filename)", node=f.node, func=f)
     g = ctx.func(FILESET, "FileSet.__getitem__")
     c = calls_in(g.node, "collect")
     okg = bool(c) and norm(c[0]).replace(" ", "") == "self.collect(time_args.start,time_args.stop,filters=filters)"
